@@ -50,7 +50,7 @@ func storeState(d *seams.SimDisk) string {
 func checkStore(r *core.Run, d *seams.SimDisk, where string) {
 	ctx := output.NewContext(context.Background(), &output.Options{Quiet: true})
 	ca := &gcsca.CertificateAuthority{Storage: &seams.SimDisk{R: r, Objects: d.Objects, Buckets: d.Buckets, FailCloseN: -1},
-		PrivateBucket: bucket, SigningCertDirInGCS: certDir, RootPath: rootPath}
+		PrivateBucket: bucket, SigningCertDirInGCS: certDir(r), RootPath: rootPath}
 	primary, err := ca.PrimarySigningKeyVersion(ctx)
 	if err != nil {
 		r.Fail("manifest-unparseable", "fresh-authority", "%s: fresh authority cannot read its manifest: %v", where, err)
@@ -143,6 +143,11 @@ func runC11(r *core.Run) {
 	}
 	nrot := 1 + r.Intn(maxRot, "rotations")
 	keep := r.Intn(2, "continue-from-order")
+	// the operator's spelling of --cert_dir: object names are literal strings in the store, and all
+	// of these name the same directory
+	if r.Chance(35, "cert-dir-spelling?") {
+		r.SetVar("cert-dir", []string{"./certs", "certs//signing", "x/../certs", "certs/", "/certs"}[r.Intn(5, "cert-dir-spelling")])
+	}
 	var a *Authority
 	hist := "boot"
 	// First bootstrap of an empty store, under both upload orders.
